@@ -304,6 +304,9 @@ func main() {
 				if wedged && o.Err == "" {
 					o = prog.Obs{Err: "hang"}
 				}
+				if o.Err == "timeout" || o.Err == "hang" {
+					wedged = true // a run that did not return: the session is not reused
+				}
 				runs = append(runs, vf.Tuple(sl.p.Term(), obsTerm(o)))
 				summary = append(summary, sl.p.Nodes[len(sl.p.Nodes)-1].Op+":"+o.Err)
 			}
